@@ -295,7 +295,7 @@ pub fn run(run: &mut Run) -> PResult {
         let n = 1_112_064u64 * 35;
         run.generator("two-character tokens: any character + suit symbol, rank symbol + any character", "exhaustive", Some(n), n, n - 2 * 19 * 16, "closes the first-two-characters rule for all tokens in which at least one of the two leading characters is a symbol");
         if let Some(t) = bad {
-            let m = token_clause(&t).err().unwrap_or_default();
+            let m = token_clause(&t).err().unwrap_or_else(|| format!("during the parallel sweep (16 threads parsing different tokens at the same time) the token {:?} was parsed wrongly, but parsing it again on one thread gives the right card: the result depends on what other threads are parsing (shared state without synchronisation) or on earlier calls", t));
             return run.violation("C12.token", &t, json!({"token": t}), &m);
         }
     }
@@ -358,6 +358,27 @@ pub fn run(run: &mut Run) -> PResult {
             return run.violation("C12.hand", &f.value, json!({"text": f.value}), &m);
         }
     }
+    // R: long texts (more tokens than any hand has slots, more than a deck has cards): totality of the
+    // hand parsers, and the bit-set parser must still fold every token in
+    {
+        let st = engine::RStats::new();
+        let cases = (if thorough { 200_000 } else { 30_000 }) / if run.is_twin() { 4 } else { 1 };
+        let res = pt::run_sharded(run.seed, 0xC12_1076, cases, &super::c15::long_text_strategy, &|s: String| match hand_clause(&s) {
+            Ok(_) => {
+                st.note(hash_str(&s), true, None, || json!({"text_start": s.chars().take(60).collect::<String>()}));
+                Ok(())
+            }
+            Err(m) => {
+                st.freeze();
+                Err(m)
+            }
+        });
+        st.flush(run, "proptest long texts (30..160 tokens)", "proptest (8 shards)", None, "card spellings with many repeats and some junk");
+        if let Err(f) = res {
+            let m = hand_clause(&f.value).err().unwrap_or_default();
+            return run.violation("C12.hand", &f.value, json!({"text": f.value}), &m);
+        }
+    }
     // R: arbitrary strings (totality, and the oracle wherever it applies)
     {
         let st = engine::RStats::new();
@@ -396,7 +417,7 @@ pub fn run(run: &mut Run) -> PResult {
 }
 
 pub fn check_case(clause: &str, case: &Value) -> Result<(), String> {
-    if clause.ends_with(".after_disturbance") {
+    if clause.ends_with(".after_disturbance") || clause.ends_with(".concurrent") || clause.ends_with(".concurrent_cold_start") {
         return super::common::replay_after_disturbance(case, check_case);
     }
     match clause {
